@@ -44,12 +44,24 @@ class ChainProfile(session.Profile):
             elif rnd.random() < 0.3:
                 wts[k] *= rnd.choice([0.3, 3.0])
         h["weights"] = wts
+        if self.pid == "C01" and rnd.random() < 0.3:
+            # swarm configuration: longer chains of two-level sites, density-density model Hamiltonians with equal couplings,
+            # swapped many times (redundant bond labels, exact cancellations)
+            h2 = chain.gen_header(rnd, nmodels=(1, 1), flavours=["spin", "spinqn"], maxdim=160, nmax=7, nmin=5)
+            h["models"] = h2["models"]
+            h["knobs"]["density_prob"] = 0.8
+            h["knobs"]["long"] = True
+            for k in h["weights"]:
+                h["weights"][k] = {"mpo": 3.0, "swap": 20.0, "unary": 0.5}.get(k, 0.0)
         if self.pid in ("C01", "C03", "C07") and rnd.random() < 0.35:
             h["knobs"]["units_prob"] = 0.6      # swarm knob: operators written in "other units" (overall factor 1e-6 .. 1e9)
         return h
 
     def nsteps(self, rnd, tier):
         return rnd.randint(10, 40)
+
+    def nsteps_for(self, header, rnd, tier):
+        return rnd.randint(30, 60) if header.get("knobs", {}).get("long") else self.nsteps(rnd, tier)
 
     def weights(self, header):
         return header["weights"]
